@@ -11,7 +11,9 @@ C10 — Fluent expressions and combinators mean what their arithmetic reading me
    elimination, auxiliary variables, immediate application of equalities) and of operand types."
 
 The code violates the full statement (general `or`, `not`, nested `!=`): kernel-checked
-counterexamples below.  What is proved, for models of any size, about `Model/Lower.lean`
+counterexamples below (an `or` of two comparisons over integer operands is a reified disjunction
+since the repair `fix: or of two comparisons is a disjunction`: `C10_or_comparisons_sound`).
+What is proved, for models of any size, about `Model/Lower.lean`
 (the executable model of `src/runtime_api/mod.rs`, tied to the code by the `lower` suite):
 
 * `Lemmas/Lower.lean`: `Expr.eval_mkAdd/mkSub/mkMul/mkDiv/mkMod`, `Expr.build_eval` (constant
@@ -21,7 +23,11 @@ counterexamples below.  What is proved, for models of any size, about `Model/Low
 * here: `C10_linear_fragment` (the linear fragment denotes its arithmetic reading; when the
   debug assertion of `apply_var_eq_bounds` can fire: `C10_linear_panic_step`,
   `C10_linear_no_panic`, `C10_linear_panic_example`), `C10_and_is_conjunction`
-  (+ `C10_and_vv_sem`), `C10_or_same_var_sound`, the counterexamples `C10_or_counterexample`,
+  (+ `C10_and_vv_sem`), `C10_or_same_var_sound`, `C10_or_comparisons_sound` (the reified
+  disjunction: sound, booleans functionally determined, exact projection on the user's variables
+  under the auxiliary-range hypothesis), `C10_or_repaired_witness` (the former counterexample
+  `x == 1 or y == 2`, now a theorem), the counterexamples `C10_or_nested_counterexample` (an `or`
+  with a nested side is still a conjunction; float operands: `C10_float_or_counterexample`),
   `C10_not_counterexample`, `C10_nested_ne_counterexample`, and `C10_aux_vars_partial`
   (auxiliary variables of `+`/`-` trees are functionally determined, under the range hypothesis
   shown necessary by `C10_aux_clipped_counterexample`).
@@ -272,8 +278,10 @@ theorem C10_or_same_var_sound (m : LModel) (x : Nat) (p q : Int) :
     simp only [c, Con.eval, Expr.eval, CmpOp.holds, bind, Option.bind, pure, Option.some.injEq,
       Bool.or_eq_true, beq_iff_eq]
   refine ⟨?_, hd, fun a => ⟨rfl, hev a, ?_⟩⟩
-  · show (if x = x then _ else _) = _
-    rw [if_pos rfl]
+  · have hs : sameVarEq (.var x) .eq (.val p) (.var x) .eq (.val q) = some (x, p, q) := by
+      simp [sameVarEq]
+    show m.materialize (.or (.bin (.var x) .eq (.val p)) (.bin (.var x) .eq (.val q))) = _
+    rw [materialize_or_unfold, hs]
     rfl
   · rintro ⟨h1, h2⟩
     rw [hev]
@@ -281,44 +289,222 @@ theorem C10_or_same_var_sound (m : LModel) (x : Nat) (p q : Int) :
       simpa [LP.toPK, PK.holds, IView.eval] using h2
     rw [this]; exact h1
 
-/-- **general `or` is lowered as a conjunction** (finding `or-lowered-as-and`):
-`x == 1 or y == 2` over `x, y ∈ 0..5`.  The lowered model has the domains `x ∈ {1}`, `y ∈ {2}`
-(plus two constants) and the propagators `x = c₁`, `y = c₂`; its only solution is `(1, 2)`, while
-the tree is true at 11 assignments, e.g. at `(1, 5)`, which no solution of the lowered model
-extends. -/
-theorem C10_or_counterexample :
+/-- **`or` of two comparisons is a disjunction** (since the repair `fix: or of two comparisons is a
+disjunction`; before it this shape was finding `or-lowered-as-and`).
+
+`(l1 op1 r1).or(l2 op2 r2)`, any of the six operators on each side, `l1, r1, l2, r2` trees over
+variables `< n = m.doms.length`, constants, `+`, `-` (every variable of the integer model is an
+integer variable: `intOperands` is the code's `is_int_expr` test), not the same-variable special
+case of `C10_or_same_var_sound`, lowered by `materialize_constraint_kind` into ANY model `m`.
+The lowering appends the variables `b1 = n`, `b2 = n+1` (domain `{0,1}`), `one = n+2` (domain
+`{1}`), auxiliary variables `D`, and propagators `P` (the operand blocks, `b1 ⇔ (l1 op1 r1)`,
+`b2 ⇔ (l2 op2 r2)`, `BoolOr([b1,b2]) = one`; meaning = `PK.holds` of `reif` / `boolOr`) with:
+* (sound) every assignment satisfying the new domains and `P` makes the tree TRUE — no range
+  hypothesis;
+* (booleans) in such an assignment `b1 = 1` iff the first comparison is true, `b2 = 1` iff the
+  second one is, `one = 1`;
+* (unique) two such assignments that agree on the old variables agree on ALL new variables: the
+  two booleans and the auxiliary variables are functionally determined, so no user-level
+  solution is enumerated twice;
+* (exact projection) if every sub-expression value lies in `[-1000, 1000]` (`Expr.InR`, the fixed
+  auxiliary domain; necessary: `C10_aux_clipped_counterexample`), the tree is true at `a` iff `a`
+  restricted to the old variables extends to an assignment satisfying the new domains and `P`:
+  the solution set projected on the user's variables is exactly the truth set of the tree. -/
+theorem C10_or_comparisons_sound (m : LModel) (l1 r1 l2 r2 : Expr) (op1 op2 : CmpOp)
+    (h1 : l1.AS = true) (h2 : r1.AS = true) (h3 : l2.AS = true) (h4 : r2.AS = true)
+    (hv : m.intOperands l1 r1 l2 r2 = true)
+    (hs : sameVarEq l1 op1 r1 l2 op2 r2 = none) :
+    let c := Con.or (.bin l1 op1 r1) (.bin l2 op2 r2)
+    let n := m.doms.length
+    ∃ (D : List Dom) (P : List LP),
+      Ext m (m.materialize c) ([boolDom, boolDom, [1]] ++ D) P ∧
+      (∀ a, NewSat n ([boolDom, boolDom, [1]] ++ D) P a → c.eval a = some true) ∧
+      (∀ a, NewSat n ([boolDom, boolDom, [1]] ++ D) P a →
+        (a n = 1 ↔ (Con.bin l1 op1 r1).eval a = some true) ∧ (a n = 0 ∨ a n = 1) ∧
+        (a (n + 1) = 1 ↔ (Con.bin l2 op2 r2).eval a = some true) ∧ (a (n + 1) = 0 ∨ a (n + 1) = 1) ∧
+        a (n + 2) = 1) ∧
+      (∀ a a', Agree n a a' → NewSat n ([boolDom, boolDom, [1]] ++ D) P a →
+        NewSat n ([boolDom, boolDom, [1]] ++ D) P a' →
+        Agree (n + ([boolDom, boolDom, [1]] ++ D).length) a a') ∧
+      (∀ a, l1.InR a → r1.InR a → l2.InR a → r2.InR a →
+        (c.eval a = some true ↔
+          ∃ a', Agree n a' a ∧ NewSat n ([boolDom, boolDom, [1]] ++ D) P a')) := by
+  intro c n
+  simp only [intOperands, Bool.and_eq_true] at hv
+  obtain ⟨⟨⟨v1, v2⟩, v3⟩, v4⟩ := hv
+  obtain ⟨D, P, ext, hmean, huniq, hex⟩ := reifOr_spec m l1 r1 l2 r2 op1 op2 h1 h2 h3 h4 v1 v2 v3 v4
+  have hev : ∀ a, c.eval a = some (op1.holds (l1.ev a) (r1.ev a) || op2.holds (l2.ev a) (r2.ev a)) := by
+    intro a
+    show (do let x ← (Con.bin l1 op1 r1).eval a; let y ← (Con.bin l2 op2 r2).eval a; pure (x || y)) = _
+    rw [bin_eval_AS l1 r1 op1 h1 h2, bin_eval_AS l2 r2 op2 h3 h4]
+    rfl
+  have hsound : ∀ a, NewSat n ([boolDom, boolDom, [1]] ++ D) P a → c.eval a = some true := by
+    intro a hsat
+    obtain ⟨_, _, _, m1, m2, hor⟩ := hmean a hsat
+    rw [hev]
+    rcases hor with h | h
+    · rw [m1.1 h]; rfl
+    · rw [m2.1 h]; simp
+  have hcongr : ∀ a a', Agree n a' a → c.eval a' = c.eval a := by
+    intro a a' hag
+    rw [hev, hev, Expr.ev_congr l1 _ v1 a' a hag, Expr.ev_congr r1 _ v2 a' a hag,
+      Expr.ev_congr l2 _ v3 a' a hag, Expr.ev_congr r2 _ v4 a' a hag]
+  refine ⟨D, P, ?_, hsound, ?_, huniq, ?_⟩
+  · show Ext m (m.materialize (.or (.bin l1 op1 r1) (.bin l2 op2 r2))) _ _
+    rw [materialize_or_bins m l1 r1 l2 r2 op1 op2 hs
+      (by simp only [intOperands, Bool.and_eq_true]; exact ⟨⟨⟨v1, v2⟩, v3⟩, v4⟩)]
+    exact ext
+  · intro a hsat
+    obtain ⟨b1, b2, hone, m1, m2, _⟩ := hmean a hsat
+    rw [bin_eval_AS l1 r1 op1 h1 h2, bin_eval_AS l2 r2 op2 h3 h4]
+    simp only [Option.some.injEq]
+    exact ⟨m1, b1, m2, b2, hone⟩
+  · intro a i1 i2 i3 i4
+    constructor
+    · intro htrue
+      rw [hev] at htrue
+      exact hex a i1 i2 i3 i4 (Option.some.inj htrue)
+    · rintro ⟨a', hag, hsat⟩
+      rw [← hcongr a a' hag]
+      exact hsound a' hsat
+
+/-- the hypotheses of `C10_or_comparisons_sound` are satisfiable: `(x + y) - 3 < y or x != y + 1`
+over two declared variables, every value in range at `x = y = 1` -/
+example : (Expr.sub (.add (.var 0) (.var 1)) (.val 3)).AS = true ∧ (Expr.add (.var 1) (.val 1)).AS = true ∧
+    ({ doms := [rangeDom 0 5, rangeDom 0 5] } : LModel).intOperands
+      (.sub (.add (.var 0) (.var 1)) (.val 3)) (.var 1) (.var 0) (.add (.var 1) (.val 1)) = true ∧
+    sameVarEq (.sub (.add (.var 0) (.var 1)) (.val 3)) .lt (.var 1) (.var 0) .ne (.add (.var 1) (.val 1)) = none ∧
+    (Expr.sub (.add (.var 0) (.var 1)) (.val 3)).InR (fun _ => 1) ∧
+    (Expr.add (.var 1) (.val 1)).InR (fun _ => 1) := by
+  refine ⟨by decide, by decide, by decide, by decide, ?_, ?_⟩ <;> simp [Expr.InR, Expr.ev]
+
+/-- **the former counterexample `x == 1 or y == 2` over `x, y ∈ 0..5`, after the repair** (it was
+`C10_or_counterexample`: lowered as `x == 1 and y == 2`, one solution instead of 11).  The lowered
+model has the variables `x, y, b1, b2 ∈ {0,1}, one ∈ {1}` and the two constants `{1}`, `{2}`, and
+the propagators `b1 ⇔ (x = c₁)`, `b2 ⇔ (y = c₂)`, `BoolOr([b1, b2]) = one`.  Its solutions (new
+domains + documented meaning of the three propagators) are EXACTLY the assignments with `x, y` in
+their declared domains at which the tree is true, each extended in exactly one way
+(`b1 = [x = 1]`, `b2 = [y = 2]`, `one = 1`, constants): the projection on `(x, y)` is the truth set
+of the tree, without duplicates.  In particular `(1, 5)`, which no solution of the old lowering
+extended, now does extend. -/
+theorem C10_or_repaired_witness :
     let doms : List Dom := [rangeDom 0 5, rangeDom 0 5]
     let c := Con.or (.bin (.var 0) .eq (.val 1)) (.bin (.var 1) .eq (.val 2))
     let m := (LModel.postCon { doms := doms } c).lower
-    m.panicked = false ∧ m.doms = [[1], [2], [1], [2]] ∧ m.props = [.eqVV 0 2, .eqVV 1 3] ∧
-    (∀ a : Nat → Int, (∀ i, i < m.doms.length → a i ∈ m.doms.getD i []) → a 0 = 1 ∧ a 1 = 2) ∧
-    (∀ a : Nat → Int, a 0 = 1 → a 1 = 5 →
-      ((∀ i, i < doms.length → a i ∈ doms.getD i []) ∧ c.eval a = some true) ∧
-      ¬ (∀ i, i < m.doms.length → a i ∈ m.doms.getD i [])) := by
+    m.panicked = false ∧
+    m.doms = [rangeDom 0 5, rangeDom 0 5, boolDom, boolDom, [1], [1], [2]] ∧
+    m.props = [.reif .eq 0 5 2, .reif .eq 1 6 3, .boolOr [2, 3] 4] ∧
+    (∀ a : Nat → Int,
+      ((∀ i, i < m.doms.length → a i ∈ m.doms.getD i []) ∧ ∀ lp ∈ m.props, PK.holds a lp.toPK = true) ↔
+      ((∀ i, i < doms.length → a i ∈ doms.getD i []) ∧ c.eval a = some true ∧
+        a 2 = (if a 0 = 1 then 1 else 0) ∧ a 3 = (if a 1 = 2 then 1 else 0) ∧
+        a 4 = 1 ∧ a 5 = 1 ∧ a 6 = 2)) ∧
+    (∃ a : Nat → Int, a 0 = 1 ∧ a 1 = 5 ∧
+      (∀ i, i < m.doms.length → a i ∈ m.doms.getD i []) ∧ ∀ lp ∈ m.props, PK.holds a lp.toPK = true) := by
   intro doms c m
-  have hdoms : m.doms = [[1], [2], [1], [2]] := by decide
-  refine ⟨by decide, hdoms, rfl, ?_, ?_⟩
-  · intro a ha
-    rw [hdoms] at ha
-    have h0 := ha 0 (by decide)
-    have h1 := ha 1 (by decide)
-    simp at h0 h1
-    exact ⟨h0, h1⟩
+  have hdoms : m.doms = [rangeDom 0 5, rangeDom 0 5, boolDom, boolDom, [1], [1], [2]] := by decide
+  have hprops : m.props = [.reif .eq 0 5 2, .reif .eq 1 6 3, .boolOr [2, 3] 4] := rfl
+  have hev : ∀ a : Nat → Int, c.eval a = some true ↔ (a 0 = 1 ∨ a 1 = 2) := by
+    intro a
+    simp [c, Con.eval, Expr.eval, CmpOp.holds]
+  have hsat : ∀ a : Nat → Int,
+      ((∀ i, i < m.doms.length → a i ∈ m.doms.getD i []) ∧ ∀ lp ∈ m.props, PK.holds a lp.toPK = true) ↔
+      (((0 ≤ a 0 ∧ a 0 ≤ 5) ∧ (0 ≤ a 1 ∧ a 1 ≤ 5) ∧ (a 2 = 0 ∨ a 2 = 1) ∧ (a 3 = 0 ∨ a 3 = 1) ∧
+          a 4 = 1 ∧ a 5 = 1 ∧ a 6 = 2) ∧
+        (a 2 = 1 ↔ a 0 = a 5) ∧ (a 3 = 1 ↔ a 1 = a 6) ∧ (a 4 ≥ 1 ↔ (a 2 ≥ 1 ∨ a 3 ≥ 1))) := by
+    intro a
+    rw [hdoms, hprops]
+    have r1 := holds_reif_iff a .eq 0 5 2
+    have r2 := holds_reif_iff a .eq 1 6 3
+    have r3 := holds_boolOr2_iff a 2 3 4
+    simp only [CmpOp.holds, beq_iff_eq] at r1 r2
+    constructor
+    · rintro ⟨hd, hp⟩
+      have d0 := hd 0 (by decide); have d1 := hd 1 (by decide); have d2 := hd 2 (by decide)
+      have d3 := hd 3 (by decide); have d4 := hd 4 (by decide); have d5 := hd 5 (by decide)
+      have d6 := hd 6 (by decide)
+      simp only [List.getD_cons_zero, List.getD_cons_succ, mem_rangeDom, mem_boolDom,
+        List.mem_singleton] at d0 d1 d2 d3 d4 d5 d6
+      exact ⟨⟨d0, d1, d2, d3, d4, d5, d6⟩, r1.1 (hp _ (by simp)), r2.1 (hp _ (by simp)),
+        r3.1 (hp _ (by simp))⟩
+    · rintro ⟨⟨d0, d1, d2, d3, d4, d5, d6⟩, p1, p2, p3⟩
+      refine ⟨?_, ?_⟩
+      · intro i hi
+        have : i = 0 ∨ i = 1 ∨ i = 2 ∨ i = 3 ∨ i = 4 ∨ i = 5 ∨ i = 6 := by
+          have : i < 7 := hi
+          omega
+        rcases this with rfl | rfl | rfl | rfl | rfl | rfl | rfl <;>
+          simp only [List.getD_cons_zero, List.getD_cons_succ, mem_rangeDom, mem_boolDom,
+            List.mem_singleton] <;> assumption
+      · intro lp hlp
+        simp only [List.mem_cons, List.not_mem_nil, or_false] at hlp
+        rcases hlp with rfl | rfl | rfl
+        · exact r1.2 p1
+        · exact r2.2 p2
+        · exact r3.2 p3
+  refine ⟨by decide, hdoms, hprops, ?_, ?_⟩
+  · intro a
+    have hud : (∀ i, i < doms.length → a i ∈ doms.getD i []) ↔ ((0 ≤ a 0 ∧ a 0 ≤ 5) ∧ (0 ≤ a 1 ∧ a 1 ≤ 5)) := by
+      constructor
+      · intro h
+        have d0 := h 0 (by decide); have d1 := h 1 (by decide)
+        simp only [doms, List.getD_cons_zero, List.getD_cons_succ, mem_rangeDom] at d0 d1
+        exact ⟨d0, d1⟩
+      · rintro ⟨d0, d1⟩ i hi
+        have : i = 0 ∨ i = 1 := by
+          have : i < 2 := hi
+          omega
+        rcases this with rfl | rfl <;>
+          simp only [doms, List.getD_cons_zero, List.getD_cons_succ, mem_rangeDom] <;> assumption
+    rw [hsat, hev, hud]
+    by_cases c0 : a 0 = 1 <;> by_cases c1 : a 1 = 2 <;>
+      (first | rw [if_pos c0] | rw [if_neg c0]) <;> (first | rw [if_pos c1] | rw [if_neg c1]) <;> omega
+  · refine ⟨fun i => match i with | 0 => 1 | 1 => 5 | 2 => 1 | 3 => 0 | 4 => 1 | 5 => 1 | 6 => 2 | _ => 0,
+      rfl, rfl, ?_⟩
+    rw [hsat]
+    decide
+
+/-- **an `or` with a nested side is still lowered as a conjunction** (finding `or-lowered-as-and`,
+what is left of it after the repair: only `or` nodes whose two sides are both comparisons over
+integer operands are reified): `(x <= 1 and y <= 1) or x >= 4` over `x, y ∈ 0..5` posts
+`x ≤ c₁`, `y ≤ c₂`, `c₃ ≤ x` with the constants `{1}`, `{1}`, `{4}`: the lowered model has NO
+solution, while the tree is true e.g. at `(5, 5)`. -/
+theorem C10_or_nested_counterexample :
+    let doms : List Dom := [rangeDom 0 5, rangeDom 0 5]
+    let c := Con.or (.and (.bin (.var 0) .le (.val 1)) (.bin (.var 1) .le (.val 1)))
+      (.bin (.var 0) .ge (.val 4))
+    let m := (LModel.postCon { doms := doms } c).lower
+    m.panicked = false ∧ m.doms = [rangeDom 0 5, rangeDom 0 5, [1], [1], [4]] ∧
+    m.props = [.leVV 0 2, .leVV 1 3, .leVV 4 0] ∧
+    (¬ ∃ a : Nat → Int, (∀ i, i < m.doms.length → a i ∈ m.doms.getD i []) ∧
+        ∀ lp ∈ m.props, PK.holds a lp.toPK = true) ∧
+    (∀ a : Nat → Int, a 0 = 5 → a 1 = 5 →
+      (∀ i, i < doms.length → a i ∈ doms.getD i []) ∧ c.eval a = some true) := by
+  intro doms c m
+  have hdoms : m.doms = [rangeDom 0 5, rangeDom 0 5, [1], [1], [4]] := by decide
+  have hprops : m.props = [.leVV 0 2, .leVV 1 3, .leVV 4 0] := rfl
+  refine ⟨by decide, hdoms, hprops, ?_, ?_⟩
+  · rintro ⟨a, hd, hp⟩
+    rw [hdoms] at hd
+    rw [hprops] at hp
+    have d2 := hd 2 (by decide)
+    have d4 := hd 4 (by decide)
+    simp only [List.getD_cons_zero, List.getD_cons_succ, List.mem_singleton] at d2 d4
+    have p1 := hp (.leVV 0 2) (by simp)
+    have p3 := hp (.leVV 4 0) (by simp)
+    simp only [LP.toPK, PK.holds, IView.eval] at p1 p3
+    have p1 := of_decide_eq_true p1
+    have p3 := of_decide_eq_true p3
+    omega
   · intro a h0 h1
-    refine ⟨⟨?_, ?_⟩, ?_⟩
-    · intro i hi
-      have : i = 0 ∨ i = 1 := by
-        have : i < 2 := hi
-        omega
-      rcases this with rfl | rfl
-      · rw [h0]; decide
-      · rw [h1]; decide
-    · simp [c, Con.eval, Expr.eval, CmpOp.holds, h0, h1]
-    · intro ha
-      rw [hdoms] at ha
-      have := ha 1 (by decide)
-      rw [h1] at this
-      simp at this
+    refine ⟨?_, by simp [c, Con.eval, Expr.eval, CmpOp.holds, h0, h1]⟩
+    intro i hi
+    have : i = 0 ∨ i = 1 := by
+      have : i < 2 := hi
+      omega
+    rcases this with rfl | rfl
+    · rw [h0]; decide
+    · rw [h1]; decide
 
 /-- `CmpOp.neg` is the complementary comparison -/
 theorem CmpOp.holds_neg (op : CmpOp) (x y : Int) : op.neg.holds x y = !(op.holds x y) := by
@@ -705,6 +891,33 @@ theorem C10_float_ne_counterexample :
     m.props = [.linNe [1, -1] [0, 1] 0] ∧ c.evalN (fun _ => 3) = some false ∧
     (FLModel.prunePass m.props { st := fixed.store }).map (fun r => r.1) = some none := by
   refine ⟨rfl, by decide +kernel, by decide +kernel⟩
+
+/-- **`or` and float operands** (the repair `fix: or of two comparisons is a disjunction` consults
+the variable TYPES, `is_int_expr`: the reified comparison propagators are integer propagators).
+(i) `x = float(0,10)`, `x.le(float(1.0)).or(x.ge(float(3.0)))`: a float variable / float literal on
+a side keeps the old lowering — both comparisons are posted (`x ≤ c₁`, `c₂ ≤ x` with the float
+constants `1`, `3`), a conjunction without solution, although the tree is true at `x = 5`
+(finding `or-lowered-as-and`, still open for this shape).
+(ii) the same tree on `x = int(0,10)` with integer literals is lowered to the reified disjunction. -/
+theorem C10_float_or_counterexample :
+    (let doms : List (FDom Rat) := [.flt 0 10]
+     let c : FCon Rat := .or (.bin (.var 0) .le (.val (.f 1))) (.bin (.var 0) .ge (.val (.f 3)))
+     let m := (FLModel.postCon { doms := doms } c).lower
+     m.props = [.leVV 0 1, .leVV 2 0] ∧ m.doms.length = 3 ∧
+     FDom.memQ (.flt 0 10) 5 ∧ c.evalN (fun _ => 5) = some true ∧
+     ∀ a : Nat → Rat, a 1 = 1 → a 2 = 3 →
+       ¬ (FLP.holdsQ a (.leVV 0 1) = true ∧ FLP.holdsQ a (.leVV 2 0) = true)) ∧
+    (let doms : List (FDom Rat) := [.int (rangeDom 0 10)]
+     let c : FCon Rat := .or (.bin (.var 0) .le (.val (.i 1))) (.bin (.var 0) .ge (.val (.i 3)))
+     let m := (FLModel.postCon { doms := doms } c).lower
+     m.props = [.reif .le 0 4 1, .reif .ge 0 5 2, .boolOr [1, 2] 3] ∧ m.doms.length = 6) := by
+  refine ⟨⟨rfl, rfl, ?_, by decide +kernel, ?_⟩, ⟨rfl, rfl⟩⟩
+  · show (0 : Rat) ≤ 5 ∧ (5 : Rat) ≤ 10
+    decide +kernel
+  · intro a h1 h2
+    simp only [FLP.holdsQ, h1, h2, decide_eq_true_eq]
+    rintro ⟨p, q⟩
+    exact absurd (Rat.le_trans q p) (by decide +kernel)
 
 /-- … while a row that does contain a float literal is lowered to the FLOAT propagator, which
 does reject the same store: `x.mul(float(1.0)).le(y)` at `x = 7`, `y = 1` -/
